@@ -40,9 +40,27 @@ _EFFECTS = None
 def effects():
     global _EFFECTS
     if _EFFECTS is None:
-        _EFFECTS = json.loads(EFFECTS_PATH.read_text())
-        validate_effects(_EFFECTS)
+        t = json.loads(EFFECTS_PATH.read_text())
+        # round 5/6: operations added to the alphabet in code (all pure, derived objects inherit no cache key)
+        for kind, extra in EXTRA_EFFECTS.items():
+            if kind not in t["kinds"]:
+                continue
+            for sect, ents in extra.items():
+                for name, e in ents.items():
+                    t["kinds"][kind].setdefault(sect, {}).setdefault(name, dict(e))
+        validate_effects(t)
+        _EFFECTS = t
     return _EFFECTS
+
+
+EXTRA_EFFECTS = {
+    # (R5-C) a structure built from another structure, explicit arguments that are "set but falsy"
+    "Mask2D": {"derive": {"remask": {"args": ["0,0", "1/2,-1", "0,3/2"], "keeps": []}}},
+    "Array2D": {"derive": {"rewrap_native": {"keeps": []}, "rewrap_slim": {"keeps": []}}},
+    "Grid2D": {"derive": {"rewrap_native": {"keeps": []}, "rewrap_slim": {"keeps": []}},
+               # (R5-D) reads general.grid.remove_projected_centre unless told explicitly ("cy,cx;angle;flag")
+               "queries": {"grid_2d_radial_projected_from": {"args": ["0,0;0;", "1/2,-1;30;", "0,0;0;1", "0,0;0;0"]}}},
+}
 
 
 IMPURE_KINDS = ("MapperValuedMaskedBuf", "MapperValuedMaskedRec")  # known finding D9b
@@ -358,6 +376,159 @@ def _as_container(a, container):
     return a
 
 
+# --------------------------------------------------------------------------------------------------
+# round 5/6 (R5-C): the same numbers in another memory layout / container.  Layout variants keep dtype and
+# values, so the expectation for an object built from one is the object built from the plain C-contiguous
+# ndarray (`canonical_build`): a constructor that mishandles Fortran order / strides / read-only input then
+# disagrees with the model AND with the oracle, although it is perfectly deterministic.
+# --------------------------------------------------------------------------------------------------
+LAYOUTS = ("fortran", "tview", "strided", "negstride", "readonly", "list", "sliced", "tuple")
+LAYOUT_ROLES = ("mask", "values", "grid_values", "data", "noise", "psf", "model_data", "mv_values",
+                "mesh_pixel_mask", "vis")
+
+
+def _as_layout(a, how, bases=None):
+    """equal-valued `a` (ndarray) as a Fortran-ordered copy / transposed view / strided slice of a bigger
+    buffer / negatively strided view / read-only array / nested Python lists.  `bases` collects the
+    underlying buffers of views (caller-owned too: the gaps must keep their bytes)."""
+    if not isinstance(a, np.ndarray) or not how:
+        return a
+    if how == "fortran":
+        return np.asfortranarray(a) if a.ndim >= 2 else a.copy()
+    if how == "tview":
+        # a transposed view of the transposed copy: same shape and values, Fortran strides, does not own its data
+        if a.ndim < 2:
+            return a.copy()
+        base = np.ascontiguousarray(np.transpose(a))
+        if bases is not None:
+            bases.append(base)
+        return np.transpose(base)
+    if how in ("strided", "sliced"):
+        # every second element (last axis) of a buffer twice as long, filled with a sentinel in the gaps;
+        # "sliced": a window of a bigger buffer (offset view, unit stride in the last axis)
+        if a.ndim == 0 or a.size == 0:
+            return a.copy()
+        fill = True if a.dtype == bool else (7 if np.issubdtype(a.dtype, np.integer) else -77.5)
+        if how == "strided":
+            big = np.full(a.shape[:-1] + (2 * a.shape[-1] + 1,), fill, dtype=a.dtype)
+            v = big[..., 1::2]
+        else:
+            big = np.full(tuple(s + 2 for s in a.shape), fill, dtype=a.dtype)
+            v = big[tuple(slice(1, 1 + s) for s in a.shape)]
+        v[...] = a
+        if bases is not None:
+            bases.append(big)
+        return v
+    if how == "negstride":
+        if a.ndim == 0 or a.size == 0:
+            return a.copy()
+        base = np.ascontiguousarray(a[::-1])
+        if bases is not None:
+            bases.append(base)
+        return base[::-1]
+    if how == "readonly":
+        b_ = a.copy()
+        b_.flags.writeable = False
+        return b_
+    if how == "list":
+        return a.tolist()
+    if how == "tuple":
+        def tup(x):
+            return tuple(tup(y) for y in x) if isinstance(x, list) else x
+        return tup(a.tolist())
+    raise ValueError(how)
+
+
+def canonical_build(b):
+    """the build with every layout variant replaced by the plain ndarray (same values, same dtype)."""
+    if b.get("graph") == "twoworld":
+        ws = [canonical_build(x) for x in b["worlds"]]
+        return b if all(x is y for x, y in zip(ws, b["worlds"])) else {**b, "worlds": ws}
+    if not b.get("layout"):
+        return b
+    return {k: v for k, v in b.items() if k != "layout"}
+
+
+# --------------------------------------------------------------------------------------------------
+# round 5/6 (R5-D): configuration values the anchored code reads through `conf.instance[...]`
+# --------------------------------------------------------------------------------------------------
+CONFIG_KEYS = {
+    "positive_only": ("general", "inversion", "use_positive_only_solver"),
+    "p_initial": ("general", "inversion", "positive_only_uses_p_initial"),
+    "diag": ("general", "inversion", "no_regularization_add_to_curvature_diag_value"),
+    "check_rec": ("general", "inversion", "check_reconstruction"),
+    "border": ("general", "inversion", "use_border_relocator"),
+    "native_only": ("general", "structures", "native_binned_only"),
+    "remove_centre": ("general", "grid", "remove_projected_centre"),
+}
+CONFIG_VALUES = {
+    "positive_only": [False, True], "p_initial": [False, True], "diag": [0.5, 0.001, 2.0],
+    "check_rec": [False, True], "border": [False], "native_only": [True, False],
+    "remove_centre": [True, False],
+}
+
+
+def _conf_section(name):
+    from autoconf import conf
+    p = CONFIG_KEYS[name]
+    return conf.instance[p[0]][p[1]], p[2]
+
+
+def conf_get(name):
+    sec, k = _conf_section(name)
+    return sec[k]
+
+
+def conf_set(name, value):
+    sec, k = _conf_section(name)
+    sec[k] = value
+
+
+class config_overrides:
+    """context: the named configuration values are in force; the previous values are put back on exit (also on
+    exceptions)."""
+
+    def __init__(self, cfg):
+        self.cfg = dict(cfg or {})
+
+    def __enter__(self):
+        self.old = {}
+        for k, v in self.cfg.items():
+            try:
+                self.old[k] = conf_get(k)
+                conf_set(k, v)
+            except Exception:
+                self.old.pop(k, None)
+        return self
+
+    def __exit__(self, *a):
+        for k, v in self.old.items():
+            try:
+                conf_set(k, v)
+            except Exception:
+                pass
+        return False
+
+
+def cfg_key(cfg):
+    return tuple(sorted((k, repr(v)) for k, v in (cfg or {}).items()))
+
+
+def cfg_timeline(history):
+    """configuration overrides in force at every step of a history (a `config` step takes effect at once)."""
+    cur, out = {}, []
+    for st in history:
+        if st.get("op") == "config":
+            cur = dict(cur)
+            for k, v in st["set"].items():
+                if v is None:
+                    cur.pop(k, None)
+                else:
+                    cur[k] = v
+        out.append(cur)
+    return out
+
+
 def _arr(vals, shape=None, dtype=float):
     if isinstance(vals, np.ndarray):
         a = np.array(vals, dtype=dtype)  # procedurally generated (large) builds: always a fresh copy
@@ -608,6 +779,20 @@ def _build_world(g, b, upto, shared, tag):
         return shared[name]
 
     ro = set(b.get("readonly", ()))
+    lay = b.get("layout") or {}
+    opts = b.get("opts") or {}
+
+    def lay_(role, arr):
+        # (R5-C) the same numbers in another memory layout / container; the buffer a view is taken from is
+        # caller-owned as well
+        how = lay.get(role)
+        if not how:
+            return arr
+        bases = []
+        out = _as_layout(arr, how, bases)
+        for k_, base_ in enumerate(bases):
+            g.add_input(f"{tag}{role}:base{k_}", base_)
+        return out
 
     def inp(role, arr):
         # a caller-owned buffer; handed over read-only when the build says so (memory-mapped / broadcast /
@@ -624,6 +809,7 @@ def _build_world(g, b, upto, shared, tag):
             pr = _pairs(b["values"])
             vals = np.empty(len(pr), dtype=complex)
             vals.real, vals.imag = pr[:, 0], pr[:, 1]
+            vals = lay_("values", vals)
             inp("values", vals)
             g.stage("Buffer", [], lambda: vals)
             if done():
@@ -632,12 +818,14 @@ def _build_world(g, b, upto, shared, tag):
             raise StopBuild
         m = mask_from_json(b["mask"])
         h, w = m.shape
+        m = lay_("mask", m)
         inp("mask", m)
         g.stage("Buffer", [], lambda: m)                                            # 0
         if done():
             raise StopBuild
         if kind == "structure" and b["struct"] == "Mask2D":
-            g.stage("Mask2D", P(0), lambda: aa.Mask2D(mask=m, pixel_scales=scales, origin=origin))
+            g.stage("Mask2D", P(0), lambda: aa.Mask2D(mask=m, pixel_scales=scales, origin=origin,
+                                                       **opts.get("Mask2D", {})))
             raise StopBuild
         mask = g.stage("Mask2D", P(0), lambda: sh("mask", lambda: aa.Mask2D(
             mask=m, pixel_scales=scales, origin=origin)))                            # 1
@@ -646,7 +834,7 @@ def _build_world(g, b, upto, shared, tag):
         if kind == "structure":
             st = b["struct"]
             form, sn = b["form"], b["store_native"]
-            n_un = int((~m).sum())
+            n_un = int((~np.asarray(m, dtype=bool)).sum())
             if st in ("Array2D", "Kernel2D"):
                 vals = _arr(b["values"], (h, w) if form == "native" else None)
             else:
@@ -654,7 +842,9 @@ def _build_world(g, b, upto, shared, tag):
                 if form == "native":
                     vals = vals.reshape(h, w, 2)
             vals = _as_container(vals, b.get("container", "ndarray"))
+            vals = lay_("values", vals)
             use_no_mask = b.get("ctor") == "no_mask"
+            so = _struct_opts(aa, opts.get(st, {}), b)
             inp("values", vals)
             g.stage("Buffer", [], lambda: vals)                                      # 2
             if done():
@@ -664,14 +854,14 @@ def _build_world(g, b, upto, shared, tag):
                 g.stage("Array2D", P(1, 2), lambda: aa.Array2D.no_mask(values=vals, pixel_scales=scales,
                                                                         shape_native=(h, w), origin=origin))
             elif st == "Array2D":
-                g.stage("Array2D", P(1, 2), lambda: aa.Array2D(values=vals, mask=mask, store_native=sn))
+                g.stage("Array2D", P(1, 2), lambda: aa.Array2D(values=vals, mask=mask, store_native=sn, **so))
             elif st == "Kernel2D" and use_no_mask:
                 g.stage("Kernel2D", P(1, 2), lambda: aa.Kernel2D.no_mask(values=vals, pixel_scales=scales,
                                                                           shape_native=(h, w), origin=origin,
                                                                           normalize=b.get("normalize", False)))
             elif st == "Kernel2D":
                 g.stage("Kernel2D", P(1, 2), lambda: aa.Kernel2D(values=vals, mask=mask, store_native=sn,
-                                                                  normalize=b.get("normalize", False)))
+                                                                  normalize=b.get("normalize", False), **so))
             elif st == "Grid2D" and use_no_mask:
                 ov = sh("over_sampling", lambda: aa.OverSamplingUniform(sub_size=b.get("sub", 1))) \
                     if b.get("sub") else None
@@ -682,11 +872,12 @@ def _build_world(g, b, upto, shared, tag):
                 ov = sh("over_sampling", lambda: aa.OverSamplingUniform(sub_size=b.get("sub", 1))) \
                     if b.get("sub") else None
                 g.stage("Grid2D", P(1, 2), lambda: aa.Grid2D(values=vals, mask=mask, store_native=sn,
-                                                              over_sampling=ov))
+                                                              over_sampling=ov, **so))
             elif st == "VectorYX2D":
                 gv = _pairs(b["grid_values"])
                 if form == "native":
                     gv = gv.reshape(h, w, 2)
+                gv = lay_("grid_values", gv)
                 inp("grid_values", gv)
                 g.stage("VectorYX2D", P(1, 2), lambda: aa.VectorYX2D(values=vals, grid=gv, mask=mask,
                                                                       store_native=sn))
@@ -694,10 +885,10 @@ def _build_world(g, b, upto, shared, tag):
                 raise ValueError(st)
             raise StopBuild
         # ---------------------------------------------------------------- dataset / inversion graphs
-        data_n = inp("data", _as_container(_arr(b["data"], (h, w)), b.get("container", "ndarray")))
-        noise_n = inp("noise", _arr(b["noise"], (h, w)))
+        data_n = inp("data", lay_("data", _as_container(_arr(b["data"], (h, w)), b.get("container", "ndarray"))))
+        noise_n = inp("noise", lay_("noise", _arr(b["noise"], (h, w))))
         kh, kw = b["psf_shape"]
-        psf_n = inp("psf", _arr(b["psf"], (kh, kw)))
+        psf_n = inp("psf", lay_("psf", _arr(b["psf"], (kh, kw))))
         g.stage("Buffer", [], lambda: data_n)                                        # 2
         if done():
             raise StopBuild
@@ -729,22 +920,26 @@ def _build_world(g, b, upto, shared, tag):
         ovs_ds = sh("over_sampling_dataset", lambda: aa.OverSamplingDataset(
             uniform=sh("over_sampling", lambda: aa.OverSamplingUniform(sub_size=sub)),
             pixelization=sh("over_sampling_pix", lambda: aa.OverSamplingUniform(sub_size=b.get("sub_pix", 1)))))
+        io = _imaging_opts(opts.get("Imaging", {}), noise_n)
+        if "noise_covariance_matrix" in io:
+            inp("noise_covariance_matrix", io["noise_covariance_matrix"])
         ds0 = g.stage("Imaging", P(5, 6, 7), lambda: aa.Imaging(
             data=data, noise_map=noise, psf=psf, over_sampling=ovs_ds,
-            use_normalized_psf=b.get("normalize_psf", True)))                        # 8
+            use_normalized_psf=b.get("normalize_psf", True), **io))                  # 8
         if done():
             raise StopBuild
         ds = g.stage("Imaging", P(8, 1), lambda: ds0.apply_mask(mask=mask))          # 9
         if done():
             raise StopBuild
-        md = inp("model_data", _arr(b["model"], None))
+        md = inp("model_data", lay_("model_data", _arr(b["model"], None)))
         g.stage("Buffer", [], lambda: md)                                            # 10
         if done():
             raise StopBuild
         model_data = aa.Array2D(values=md, mask=mask)
         fit_cls = _fit_class(aa)
+        fo = _fit_opts(aa, opts.get("FitImaging", {}))
         g.stage("FitImaging", P(9, 10), lambda: fit_cls(dataset=ds, model_data=model_data,
-                                                         use_mask_in_fit=b.get("use_mask_in_fit", False)))  # 11
+                                                         use_mask_in_fit=b.get("use_mask_in_fit", False), **fo))  # 11
         if done() or kind == "dataset":
             raise StopBuild
         # ---------------------------------------------------------------- inversion
@@ -787,38 +982,50 @@ def _build_world(g, b, upto, shared, tag):
 
             def mk_mapper(ms=ms, mesh=mesh, mi=mi):
                 mg = aa.MapperGrids(mask=mask, source_plane_data_grid=sgrid, source_plane_mesh_grid=mesh,
-                                    image_plane_mesh_grid=None, adapt_data=None)
+                                    image_plane_mesh_grid=None, adapt_data=None, **_plain_opts(opts.get("MapperGrids", {})))
                 # (a shared regularization instance: only when both worlds ask for the same scheme / coefficient)
                 reg = sh(f"regularization{mi}:{ms.get('reg')}:{ms.get('coeff', '1')}", lambda: mk_reg(ms)) \
                     if shared is not None and "regularization" in shared["__share__"] else mk_reg(ms)
                 cls = aa.MapperRectangular if ms["mesh"] == "rect" else aa.MapperDelaunay
-                return cls(mapper_grids=mg, over_sampler=ovs, border_relocator=None, regularization=reg)
+                return cls(mapper_grids=mg, over_sampler=ovs, border_relocator=None, regularization=reg,
+                           **_plain_opts(opts.get("Mapper", {})))
 
             mappers.append(g.stage("Mapper", [base + 1, base + 13, mesh_idx, base + 12], mk_mapper))
             mapper_idx.append(len(g.pool) - 1)
             if done():
                 raise StopBuild
-        settings = sh("settings", lambda: aa.SettingsInversion(
-            use_w_tilde=b.get("w_tilde", False), use_positive_only_solver=b.get("positive_only", False),
-            no_regularization_add_to_curvature_diag_value=1.0))
+        so_ = _plain_opts(opts.get("SettingsInversion", {}))
+        if b.get("settings_implicit"):
+            # (R5-D) the settings leave these to the configuration: `None` = "the value in the config files"
+            skw = {"use_w_tilde": b.get("w_tilde", False)}
+        else:
+            skw = {"use_w_tilde": b.get("w_tilde", False), "use_positive_only_solver": b.get("positive_only", False),
+                   "no_regularization_add_to_curvature_diag_value": float(Fraction(b.get("diag", "1")))}
+            if b.get("p_initial") is not None:
+                skw["positive_only_uses_p_initial"] = b["p_initial"]
+        skw.update(so_)
+        settings = sh("settings", lambda: aa.SettingsInversion(**skw))
+        iko = _plain_opts(opts.get("Inversion", {}))
         if b.get("preloads") or (shared is not None and "preloads" in shared["__share__"]):
             # an explicit (empty) Preloads instance, possibly one instance for both worlds
             pre = sh("preloads", lambda: aa.Preloads())
-            mk_inv = lambda: aa.Inversion(dataset=ds, linear_obj_list=list(mappers), settings=settings, preloads=pre)
+            mk_inv = lambda: aa.Inversion(dataset=ds, linear_obj_list=list(mappers), settings=settings, preloads=pre,
+                                          **iko)
         else:
-            mk_inv = lambda: aa.Inversion(dataset=ds, linear_obj_list=list(mappers), settings=settings)
+            mk_inv = lambda: aa.Inversion(dataset=ds, linear_obj_list=list(mappers), settings=settings, **iko)
         inv = g.stage("Inversion", [base + 9] + mapper_idx, mk_inv)
         if done():
             raise StopBuild
         inv_idx = len(g.pool) - 1
         g.stage("FitInversion", [base + 9, inv_idx], lambda: fit_cls(
-            dataset=ds, model_data=None, inversion=inv, use_mask_in_fit=b.get("use_mask_in_fit", False)))
+            dataset=ds, model_data=None, inversion=inv, use_mask_in_fit=b.get("use_mask_in_fit", False), **fo))
         if done():
             raise StopBuild
         mv = b.get("valued")
         if mv:
             pm = np.array([c == "1" for c in mv["pixel_mask"]], dtype=bool) if mv.get("pixel_mask") else None
             if pm is not None:
+                pm = lay_("mesh_pixel_mask", pm)
                 inp("mesh_pixel_mask", pm)
             mv_kind = mv_kind_of(mv)
             if isinstance(mv["values"], str) and mv["values"] == "reconstruction":
@@ -839,7 +1046,7 @@ def _build_world(g, b, upto, shared, tag):
                     vals_a = np.concatenate([vals_a, np.full(mv["len_delta"], 1.5)])
                 elif mv.get("len_delta", 0) < 0:
                     vals_a = vals_a[: mv["len_delta"]]
-                vals = inp("mv_values", vals_a)
+                vals = inp("mv_values", lay_("mv_values", vals_a))
                 g.stage("Buffer", [], lambda: vals)
                 if done():
                     raise StopBuild
@@ -848,6 +1055,55 @@ def _build_world(g, b, upto, shared, tag):
     except StopBuild:
         pass
     return g
+
+
+def _plain_opts(o):
+    """JSON option values as keyword arguments (fractions stay strings in the case: "f:1/2" -> 0.5)."""
+    out = {}
+    for k, v in (o or {}).items():
+        if isinstance(v, str) and v.startswith("f:"):
+            v = float(Fraction(v[2:]))
+        elif isinstance(v, str) and v == "dict:":
+            v = {}
+        out[k] = v
+    return out
+
+
+def _struct_opts(aa, o, b):
+    out = {}
+    for k, v in (o or {}).items():
+        if k == "header":
+            out[k] = aa.Header(header_sci_obj={"EXPTIME": 2.0} if v else None) if v is not None else None
+        elif k == "over_sampling_non_uniform":
+            out[k] = aa.OverSamplingUniform(sub_size=int(v)) if v is not None else None
+        else:
+            out[k] = v
+    return out
+
+
+def _imaging_opts(o, noise_n):
+    out = {}
+    for k, v in (o or {}).items():
+        if k == "noise_covariance_matrix":
+            if v:
+                nm = np.asarray(noise_n, dtype=float).ravel()
+                out[k] = np.diag(nm * nm)
+        else:
+            out[k] = v
+    return out
+
+
+def _fit_opts(aa, o):
+    out = {}
+    for k, v in (o or {}).items():
+        if k == "dataset_model":
+            sky, oy, ox = (float(Fraction(x)) for x in v)
+            out[k] = aa.DatasetModel(background_sky_level=sky, grid_offset=(oy, ox))
+        elif k == "run_time_dict":
+            out[k] = {} if v == "dict:" else v
+        else:
+            out[k] = v
+    return out
 
 
 def mv_kind_of(mv):
@@ -870,8 +1126,8 @@ def _fit_class(aa):
     global _FIT
     if _FIT is None:
         class FitC11(aa.FitImaging):
-            def __init__(self, dataset, model_data, inversion=None, use_mask_in_fit=False):
-                super().__init__(dataset=dataset, use_mask_in_fit=use_mask_in_fit)
+            def __init__(self, dataset, model_data, inversion=None, use_mask_in_fit=False, **kw):
+                super().__init__(dataset=dataset, use_mask_in_fit=use_mask_in_fit, **kw)
                 self._model_data = model_data
                 self._inversion = inversion
 
@@ -932,6 +1188,11 @@ def do_query(obj, kind, name, arg, build, track=None):
         return obj.squared_distances_to_coordinate_from(coordinate=(y, x))
     if name == "extent_with_buffer_from":
         return obj.extent_with_buffer_from(buffer=float(Fraction(arg)))
+    if name == "grid_2d_radial_projected_from":
+        c_, ang, flag = arg.split(";")
+        cy, cx = (float(Fraction(s)) for s in c_.split(","))
+        kw = {} if flag == "" else {"remove_projected_centre": flag == "1"}
+        return obj.grid_2d_radial_projected_from(centre=(cy, cx), angle=float(Fraction(ang)), **kw)
     if name == "convolved_array_from" and arg == "bad_native":
         # an image whose native form is not 2D: the convolution raises half-way
         class _Native:
@@ -1046,6 +1307,14 @@ def do_derive(obj, kind, g, build):
         if kind == "Grid2D":
             return aa.Grid2D(values=obj, mask=obj.mask, over_sampling=obj.over_sampling)
         return type(obj)(values=obj, mask=obj.mask)
+    if how in ("rewrap_native", "rewrap_slim"):
+        sn = how == "rewrap_native"
+        if kind == "Grid2D":
+            return aa.Grid2D(values=obj, mask=obj.mask, store_native=sn, over_sampling=obj.over_sampling)
+        return type(obj)(values=obj, mask=obj.mask, store_native=sn)
+    if how == "remask":
+        oy, ox = (float(Fraction(s)) for s in arg.split(","))
+        return aa.Mask2D(mask=obj, pixel_scales=obj.pixel_scales, origin=(oy, ox))
     if how == "native":
         return obj.native
     if how == "slim":
@@ -1092,6 +1361,31 @@ def do_derive(obj, kind, g, build):
         mk = aa.Mask2D(mask=m, pixel_scales=obj.mask.pixel_scales, origin=obj.mask.origin)
         return obj.apply_noise_scaling(mask=mk, noise_value=64.0)
     raise ValueError(f"unknown derivation {g}")
+
+
+def derive_twin(obj, kind, g):
+    """(R5-C) for a derivation that constructs a structure FROM a structure: the same public constructor called
+    with the source's plain ndarray and the same explicit arguments (None where not defined).  The derived object
+    must report what this one reports."""
+    aa = load_autoarray()
+    how, _, arg = g.partition(":")
+    try:
+        if how == "remask":
+            oy, ox = (float(Fraction(s)) for s in arg.split(","))
+            return aa.Mask2D(mask=np.array(obj.array, dtype=bool), pixel_scales=obj.pixel_scales, origin=(oy, ox))
+        if how in ("rewrap", "rewrap_native", "rewrap_slim"):
+            sn = {"rewrap": False, "rewrap_native": True, "rewrap_slim": False}[how]
+            if kind == "Grid2D":
+                return aa.Grid2D(values=np.array(obj.array), mask=obj.mask, store_native=sn,
+                                 over_sampling=obj.over_sampling)
+            if kind in ("Array2D", "Kernel2D"):
+                return type(obj)(values=np.array(obj.array), mask=obj.mask, store_native=sn)
+    except Exception:
+        return None
+    return None
+
+
+TWIN_HOWS = ("remask", "rewrap", "rewrap_native", "rewrap_slim")
 
 
 def deriv_class(kind, g):
@@ -1192,6 +1486,99 @@ def _container_assign(c, content):
         c.update(content)
 
 
+def _fn_containers(f, prefix, conts):
+    """mutable containers hidden in a function: attributes, default arguments, closure cells."""
+    try:
+        for fk, fv in list(vars(f).items()):
+            if not fk.startswith("__") and isinstance(fv, (dict, list, set)):
+                conts[prefix + (fk,)] = fv
+        for i, dv in enumerate(getattr(f, "__defaults__", None) or ()):
+            if isinstance(dv, (dict, list, set)):
+                conts[prefix + (f"<default {i}>",)] = dv
+        for dk, dv in (getattr(f, "__kwdefaults__", None) or {}).items():
+            if isinstance(dv, (dict, list, set)):
+                conts[prefix + (f"<kwdefault {dk}>",)] = dv
+        for i, cell in enumerate(getattr(f, "__closure__", None) or ()):
+            try:
+                cv = cell.cell_contents
+            except ValueError:
+                continue
+            if isinstance(cv, (dict, list, set)):
+                conts[prefix + (f"<closure {i}>",)] = cv
+    except Exception:
+        pass
+
+
+def _is_code_like(v):
+    import types
+    return isinstance(v, (types.ModuleType, types.FunctionType, types.BuiltinFunctionType, types.MethodType, type,
+                          property, staticmethod, classmethod, types.MethodDescriptorType,
+                          types.WrapperDescriptorType, types.GetSetDescriptorType, types.MemberDescriptorType)) \
+        or hasattr(v, "__get__") or callable(v)
+
+
+def _attr_holders():
+    """the namespaces in which a process-wide memo / cached default can be kept as a plain attribute: the modules
+    of the library and the classes they define (plotting left out: never reached from a history)."""
+    out = []
+    for name, mod in list(sys.modules.items()):
+        if mod is None or not (name == "autoarray" or name.startswith("autoarray.")) or ".plot" in name:
+            continue
+        out.append((mod, vars(mod)))
+        for k, v in list(vars(mod).items()):
+            if isinstance(v, type) and getattr(v, "__module__", None) == name:
+                out.append((v, vars(v)))
+    return out
+
+
+def _data_attrs(d):
+    return {k: v for k, v in d.items() if not k.startswith("__") and not _is_code_like(v)}
+
+
+def _scalar_state_init():
+    # per namespace: its size (an added / removed name changes it) and its data attributes (rebinding changes identity)
+    _MODSTATE["holders"] = [[h, d, len(d), _data_attrs(d), dict(d)] for h, d in _attr_holders()]
+    _MODSTATE["resets"] = 0
+
+
+def _scalar_divergence():
+    """[(holder, name, import-time value | _MISSING, current value | _MISSING)] for every data attribute of a library
+    module / class that was rebound, added or removed since import (code objects — functions, properties, classes,
+    modules: monkeypatching, lazy imports — are not state)."""
+    out = []
+    hs = _MODSTATE.get("holders")
+    if hs is None:
+        return out
+    for rec in hs:
+        h, d, n0, data0, snap0 = rec
+        if len(d) == n0:
+            same = True
+            for k, v in data0.items():
+                if d.get(k, _MISSING) is not v:
+                    same = False
+                    break
+            if same:
+                continue
+        found = False
+        for k in set(d) | set(snap0):
+            if k.startswith("__"):
+                continue
+            v0, v1 = snap0.get(k, _MISSING), d.get(k, _MISSING)
+            if v0 is v1:
+                continue
+            if (v0 is _MISSING or _is_code_like(v0)) and (v1 is _MISSING or _is_code_like(v1)):
+                continue
+            out.append((h, k, v0, v1))
+            found = True
+        if not found:
+            # only code-like differences (lazy imports, monkeypatches): new baseline
+            rec[2], rec[3], rec[4] = len(d), _data_attrs(d), dict(d)
+    return out
+
+
+_MISSING = object()
+
+
 def _scan_module_state():
     import types
     conts, lru = {}, []
@@ -1208,18 +1595,18 @@ def _scan_module_state():
                     if not ck.startswith("__") and isinstance(cv, (dict, list, set)):
                         conts[(name, f"{v.__name__}.{ck}")] = cv
                     f = getattr(cv, "__func__", cv)
+                    if isinstance(cv, property):
+                        f = cv.fget
+                    elif hasattr(cv, "func") and isinstance(getattr(cv, "func"), types.FunctionType):
+                        f = cv.func  # autoconf / functools cached_property
                     if hasattr(f, "cache_clear"):
                         lru.append(f)
                     elif isinstance(f, types.FunctionType):
-                        for fk, fv in list(vars(f).items()):
-                            if isinstance(fv, (dict, list, set)):
-                                conts[(name, f"{v.__name__}.{ck}.{fk}")] = fv
+                        _fn_containers(f, (name, f"{v.__name__}.{ck}"), conts)
             elif hasattr(v, "cache_clear") and callable(v):
                 lru.append(v)
             elif isinstance(v, types.FunctionType) and v.__module__ == name:
-                for fk, fv in list(vars(v).items()):
-                    if not fk.startswith("__") and isinstance(fv, (dict, list, set)):
-                        conts[(name, f"{k}.{fk}")] = fv
+                _fn_containers(getattr(v, "__wrapped__", v), (name, k), conts)
     return conts, lru
 
 
@@ -1230,6 +1617,7 @@ def module_state_init():
         conts, lru = _scan_module_state()
         _MODSTATE.update(conts=conts, lru=lru, pristine={k: _container_copy(c) for k, c in conts.items()},
                          n_modules=len(sys.modules))
+        _scalar_state_init()
 
 
 def module_state_rescan():
@@ -1262,9 +1650,30 @@ class pristine_module_state:
                 f.cache_clear()
             except Exception:
                 pass
+        # (round 5/6) plain attributes of the library's modules / classes rebound or added since import — a memo kept
+        # in a module global, a configuration default cached in a class attribute — hold their import-time value
+        self.rebound = []
+        for h, k, v0, v1 in _scalar_divergence():
+            try:
+                if v0 is _MISSING:
+                    delattr(h, k)
+                else:
+                    setattr(h, k, v0)
+                self.rebound.append((h, k, v1))
+                _MODSTATE["resets"] = _MODSTATE.get("resets", 0) + 1
+            except Exception:
+                pass
         return self
 
     def __exit__(self, *a):
+        for h, k, v1 in self.rebound:
+            try:
+                if v1 is _MISSING:
+                    delattr(h, k)
+                else:
+                    setattr(h, k, v1)
+            except Exception:
+                pass
         for k, content in self.saved.items():
             try:
                 _container_assign(_MODSTATE["conts"][k], content)
@@ -1339,26 +1748,41 @@ class FreshEval:
 
     def __init__(self, build):
         bk = hashlib.sha1(json.dumps(build, sort_keys=True).encode()).hexdigest()
-        self.build = expand_build(build)
+        self.build_as_given = expand_build(build)
+        # (R5-C) the fresh equal object is built from the plain C-contiguous ndarrays of the same values; the
+        # caller's buffers themselves (kind Buffer) are what they are
+        cb = canonical_build(build)
+        self.build = self.build_as_given if cb is build else expand_build(cb)
+        self._kinds = None
         if bk not in FreshEval._shared:
             if len(FreshEval._shared) > 4000:
                 FreshEval._shared.clear()
             FreshEval._shared[bk] = {}
         self.memo = FreshEval._shared[bk]
 
+    def _build_for(self, root):
+        if self.build is self.build_as_given:
+            return self.build
+        if self._kinds is None:
+            self._kinds = root_kinds(self.build_as_given)
+        return self.build_as_given if (root < len(self._kinds) and self._kinds[root] == "Buffer") else self.build
+
     def obj(self, root, path):
-        g = build_graph(self.build, upto=root, track=False)
+        bld = self._build_for(root)
+        g = build_graph(bld, upto=root, track=False)
         o, kind = g.pool[root], g.kinds[root]
-        wb = world_of(self.build, root)[0]
+        wb = world_of(bld, root)[0]
         for gname in path:
             o = do_derive(o, kind, gname, wb)
             kind = result_kind(kind, gname)
         return o, kind
 
-    def value(self, root, path, step):
+    def value(self, root, path, step, cfg=None):
         k = (root, tuple(path), step["op"], step.get("key"), step.get("name"), step.get("arg"))
+        if cfg:
+            k = k + (cfg_key(cfg),)
         if k not in self.memo:
-            with pristine_module_state():
+            with pristine_module_state(), config_overrides(cfg):
                 try:
                     o, kind = self.obj(root, path)
                 except Exception as e:
@@ -1407,7 +1831,111 @@ def do_setitem(obj, kind, st):
 _RUNS = [0]
 
 
+def _value_arrays(v, out, depth=0):
+    """every numpy array reachable from a value the API returned (structures, lists, dicts, plain objects)."""
+    if depth > 6 or v is None or isinstance(v, (bool, int, float, complex, str, np.generic)):
+        return
+    if isinstance(v, np.ndarray):
+        out.append(v)
+        return
+    if _is_structure(v):
+        a = getattr(v, "_array", None)
+        if isinstance(a, np.ndarray):
+            out.append(a)
+        for x in list(vars(v).values()):
+            _value_arrays(x, out, depth + 1)
+        return
+    if isinstance(v, (list, tuple)):
+        for x in v[:64]:
+            _value_arrays(x, out, depth + 1)
+        return
+    if isinstance(v, dict):
+        for x in list(v.values())[:64]:
+            _value_arrays(x, out, depth + 1)
+        return
+    d = getattr(v, "__dict__", None)
+    if isinstance(d, dict) and type(v).__module__.split(".")[0] == "autoarray":
+        for k, x in list(d.items()):
+            if k != "run_time_dict":
+                _value_arrays(x, out, depth + 1)
+
+
+def scribble(arrays):
+    """(R5-B) the caller overwrites, in place, arrays it was handed or handed over: NaN into floating / complex
+    arrays, +1 on integers, negation of booleans.  Returns the number of arrays written."""
+    seen, n = set(), 0
+    for a in arrays:
+        if not isinstance(a, np.ndarray) or id(a) in seen:
+            continue
+        seen.add(id(a))
+        if not a.flags.writeable or a.size == 0 or a.dtype == object:
+            continue
+        try:
+            if a.dtype == bool:
+                np.logical_not(a, out=a)
+            elif np.issubdtype(a.dtype, np.inexact):
+                a[...] = np.nan
+            elif np.issubdtype(a.dtype, np.integer):
+                np.add(a, 1, out=a, casting="unsafe")
+            else:
+                continue
+            n += 1
+        except Exception:
+            pass
+    return n
+
+
+CONTROL_KEYS = ("positive_only", "p_initial", "diag")
+
+
+def control_of(build, cfg):
+    """(R5-D) explicit-argument control of a world that leaves settings to the configuration: the same world with
+    the values in force written out as explicit constructor arguments, to be evaluated under the OPPOSITE
+    configuration — an explicit argument must win over any configuration value."""
+    if build.get("graph") == "twoworld" or not build.get("settings_implicit"):
+        return None, None
+    eff = {}
+    for k in CONTROL_KEYS:
+        eff[k] = cfg[k] if k in (cfg or {}) else conf_pinned(k)
+    cb = {k: v for k, v in build.items() if k != "settings_implicit"}
+    cb["positive_only"] = bool(eff["positive_only"])
+    cb["p_initial"] = bool(eff["p_initial"])
+    cb["diag"] = q(Fraction(float(eff["diag"])))
+    opposite = dict(cfg or {})
+    opposite.update({"positive_only": not eff["positive_only"], "p_initial": not eff["p_initial"],
+                     "diag": float(eff["diag"]) + 1.0})
+    return cb, opposite
+
+
+_PINNED = {}
+
+
+def conf_pinned(name):
+    """the value of the harness's pinned configuration (recorded before any history changes it)."""
+    if name not in _PINNED:
+        _PINNED[name] = conf_get(name)
+    return _PINNED[name]
+
+
 def run_history(case):
+    load_autoarray()
+    for k in CONFIG_KEYS:
+        try:
+            conf_pinned(k)
+        except Exception:
+            pass
+    try:
+        return _run_history(case)
+    finally:
+        # the configuration is put back whatever happened (also on exceptions / skips)
+        for k, v in _PINNED.items():
+            try:
+                conf_set(k, v)
+            except Exception:
+                pass
+
+
+def _run_history(case):
     b = expand_build(case["build"])
     module_state_init()
     _RUNS[0] += 1
@@ -1416,6 +1944,10 @@ def run_history(case):
         module_state_rescan()
         _MODSTATE["n_modules"] = len(sys.modules)
     pre = polluted_defaults()
+    # every case starts from the library's import-time module- / class-level state (nothing to do on the unchanged
+    # tree): a failure is then reproducible from the case alone, and the shrinker cannot lean on what earlier cases
+    # left in a process-wide memo or a cached configuration default
+    pristine_module_state().__enter__()
     try:
         g = build_graph(b)
     except Exception as e:
@@ -1424,21 +1956,61 @@ def run_history(case):
     if pre:
         g.ctor_changed.insert(0, {"stage": -1, "kind": "(state left by earlier operations in this process)",
                                   "changed": pre})
+    ctor_changed = list(g.ctor_changed)
+    n_roots = g.n_roots
     terms = [(i, []) for i in range(len(g.pool))]
     fresh = FreshEval(case["build"])
     steps_out = []
     poked = set()
     edited = set()   # objects the user assigned into (`obj[k] = v`): expectation = an object rebuilt from its contents
     tainted = set()  # objects derived from an edited object afterwards
+    twins = {}       # derived object built from a structure -> the same constructor call on the plain ndarray
+    returned = []    # arrays the API handed out / accepted in this round (R5-B)
+    first_seen = {}  # (configuration, contents term, operation) -> value reported the first time (any round)
+    cfg = {}         # configuration overrides in force
+    rounds = 0
+    impure = any(k in IMPURE_KINDS for k in g.kinds)
     snap = Snapshot(g.inputs, g.pool)
     for st in case["history"]:
+        if st["op"] == "config":
+            # (R5-D) the user changes configuration values between calls
+            cfg = dict(cfg)
+            for k, v in st["set"].items():
+                if v is None:
+                    cfg.pop(k, None)
+                    conf_set(k, conf_pinned(k))
+                else:
+                    cfg[k] = v
+                    conf_set(k, v)
+            steps_out.append({"value": None, "changed": [], "owners": []})
+            continue
+        if st["op"] == "renew":
+            # (R5-B) the caller scribbles over every array it was handed or handed over, drops the whole world and
+            # builds the same world again from fresh equal inputs
+            if st.get("scribble"):
+                arrs = list(returned) + [a for a in g.inputs.values()]
+                arrs += list(walk_buffers({f"obj{i}": o for i, o in enumerate(g.pool) if o is not None}).values())
+                scribble(arrs)
+            try:
+                g = build_graph(b)
+            except Exception as e:
+                raise Skip(f"graph cannot be rebuilt: {type(e).__name__}: {str(e)[:80]}")
+            rounds += 1
+            for c_ in g.ctor_changed:
+                ctor_changed.append({**c_, "round": rounds})
+            terms = [(i, []) for i in range(len(g.pool))]
+            poked, edited, tainted, twins, returned = set(), set(), set(), {}, []
+            snap = Snapshot(g.inputs, g.pool)
+            steps_out.append({"value": None, "changed": [], "owners": []})
+            continue
         o = st["obj"]
         if o >= len(g.pool):
-            steps_out.append({"value": "err:no-object", "changed": []})
+            steps_out.append({"value": "err:no-object", "changed": [], "owners": []})
             continue
         obj, kind = g.pool[o], g.kinds[o]
         wb = world_of(b, terms[o][0])[0]
         out = {}
+        clean = not (o in poked or o in edited or o in tainted)
         if kind == "Failed":
             # the derivation that should have produced this object raised (in the fresh world it must too)
             root, path = terms[o]
@@ -1452,7 +2024,7 @@ def run_history(case):
                 out["value"] = None
             else:
                 out["value"] = "err:failed-derivation"
-                out["fresh"] = out["value"] if (o in edited or o in tainted) else fresh.value(root, path, st)
+                out["fresh"] = out["value"] if (o in edited or o in tainted) else fresh.value(root, path, st, cfg)
         elif st["op"] == "read":
             holder = {}
 
@@ -1461,11 +2033,13 @@ def run_history(case):
                 return holder["v"]
 
             out["value"] = safe_value(rd)
+            if "v" in holder:
+                _value_arrays(holder["v"], returned)
             root, path = terms[o]
             if o in edited or o in tainted:
                 out["fresh"] = out["value"]
             else:
-                out["fresh"] = out["value"] if o in poked else fresh.value(root, path, st)
+                out["fresh"] = out["value"] if o in poked else fresh.value(root, path, st, cfg)
             if (path or o in edited) and "v" in holder:
                 # derived / user-edited object: consistency with its own contents, stated independently
                 exp = direct_expectation(obj, kind, st["key"])
@@ -1478,9 +2052,21 @@ def run_history(case):
                     if rb is not None and _same_contents(rb, obj, kind):
                         rbv = safe_value(lambda: do_read(rb, st["key"]))
                         out["rebuilt"] = rbv
+            if o in twins and clean:
+                tw = twins[o]
+                out["twin"] = safe_value(lambda: do_read(tw, st["key"]))
         elif st["op"] == "query":
             qargs = {}
-            out["value"] = safe_value(lambda: do_query(obj, kind, st["name"], st.get("arg", ""), wb, track=qargs))
+            holder = {}
+
+            def qr():
+                holder["v"] = do_query(obj, kind, st["name"], st.get("arg", ""), wb, track=qargs)
+                return holder["v"]
+
+            out["value"] = safe_value(qr)
+            if "v" in holder:
+                _value_arrays(holder["v"], returned)
+            returned.extend(a for a, _ in qargs.values())
             out["_qargs_changed"] = sorted(f"input:query-arg:{nm}" for nm, (a, f0) in qargs.items() if fp_bytes(a) != f0)
             root, path = terms[o]
             if o in edited or o in tainted:
@@ -1491,7 +2077,12 @@ def run_history(case):
                         if rb is not None and _same_contents(rb, obj, kind):
                             out["rebuilt"] = safe_value(lambda: do_query(rb, kind, st["name"], st.get("arg", ""), wb))
             else:
-                out["fresh"] = fresh.value(root, path, st)
+                out["fresh"] = fresh.value(root, path, st, cfg)
+                if st["name"] == "grid_2d_radial_projected_from" and st.get("arg", "").endswith(";") and o not in poked:
+                    # (R5-D) explicit-argument control: the flag in force written out, under the opposite configuration
+                    eff = cfg["remove_centre"] if "remove_centre" in cfg else conf_pinned("remove_centre")
+                    ctrl = {**st, "arg": st["arg"] + ("1" if eff else "0")}
+                    out["control"] = fresh.value(root, path, ctrl, {**cfg, "remove_centre": not eff})
         elif st["op"] == "fault":
             # an interrupt injected at the k-th internal call of a read / query; the value of the interrupted
             # operation is not compared, everything the objects report afterwards is
@@ -1579,6 +2170,11 @@ def run_history(case):
                 root, path = terms[o]
                 terms.append((root, path + [st["g"]]))
                 out["value"] = None
+                if st["g"].partition(":")[0] in TWIN_HOWS and clean:
+                    with pristine_module_state():
+                        tw = derive_twin(obj, kind, st["g"])
+                    if tw is not None:
+                        twins[len(g.pool) - 1] = tw
             else:
                 # keep indexes aligned: a failed derivation still occupies a pool slot (never used)
                 g.pool.append(None)
@@ -1587,15 +2183,33 @@ def run_history(case):
                 terms.append((terms[o][0], terms[o][1] + [st["g"]]))
             if o in edited or o in tainted:
                 tainted.add(len(g.pool) - 1)
+        if st["op"] in ("read", "query") and clean and not impure and "fresh" in out and kind != "Failed":
+            # (R5-B / R5-D) determinism across rounds and repetitions: the same quantity of the same contents under
+            # the same configuration was reported before — stated without any freshly built object
+            fk = (cfg_key(cfg), terms[o][0], tuple(terms[o][1]), st["op"], st.get("key"), st.get("name"), st.get("arg"))
+            if fk in first_seen:
+                out["first"] = first_seen[fk]
+            else:
+                first_seen[fk] = out["value"]
+        if st["op"] == "read" and clean and case.get("control") and "fresh" in out and kind != "Failed":
+            if case["control"] == "pinned":
+                # explicit settings: the value under the harness's pinned configuration (no overrides at all)
+                if cfg and all(k_ in CONTROL_KEYS for k_ in cfg) and not (
+                        case["build"].get("p_initial") is None and "p_initial" in cfg):
+                    out["control"] = fresh.value(terms[o][0], terms[o][1], st, None)
+            else:
+                cb, opp = control_of(case["build"], cfg)
+                if cb is not None:
+                    out["control"] = FreshEval(cb).value(terms[o][0], terms[o][1], st, opp)
         after = Snapshot(g.inputs, g.pool)
         qch = out.pop("_qargs_changed", [])
         out["changed"] = sorted(out.pop("_pre_changed", []) + after.changed_since(snap) + qch)
         out["owners"] = sorted(set(out.pop("_pre_owners", []) + after.owners_changed_since(snap, g.pool, g.inputs) + qch))
         snap = after
         steps_out.append(out)
-    meta = {"kinds": g.kinds[: g.n_roots], "parents": g.parents[: g.n_roots],
+    meta = {"kinds": g.kinds[: n_roots], "parents": g.parents[: n_roots],
             "terms": [[r, p] for r, p in terms]}
-    return {"ctor": g.ctor_changed, "steps": steps_out, "_meta": meta}
+    return {"ctor": ctor_changed, "steps": steps_out, "_meta": meta}
 
 
 # ==================================================================================================
@@ -2170,6 +2784,26 @@ class C11(PropertyCheck):
 
     # ------------------------------------------------------------------ generation
     def generate(self, tier, rng):
+        if tier == "quick":
+            yield from self._generate_seq(tier, rng)
+            return
+        # thorough budget: the rounds-5/6 streams are interleaved with the older ones (chunks in turn), so that a run
+        # that is cut by a time budget (the escalated quick tier after a change of modelled code) has met every
+        # stream; an uncut thorough run generates exactly the same set
+        alpha = Alphabet()
+        gens = [self._generate_seq(tier, rng, with_round5=False), self._round5_cases(rng, alpha, False)]
+        sizes = [24, 8]
+        while gens:
+            for gi in range(len(gens) - 1, -1, -1):
+                g_, n_ = gens[gi], sizes[gi]
+                for _ in range(n_):
+                    try:
+                        yield next(g_)
+                    except StopIteration:
+                        del gens[gi], sizes[gi]
+                        break
+
+    def _generate_seq(self, tier, rng, with_round5=True):
         alpha = Alphabet()
         quick = tier == "quick"
         maxsteps = 12 if quick else 40
@@ -2241,6 +2875,608 @@ class C11(PropertyCheck):
             yield self._rng_case(rng, maxsteps)
         # 7. round 4: reuse histories on real objects (faults, user edits, twins, two worlds)
         yield from self._reuse_cases(rng, alpha, quick)
+        # 8. rounds 5/6: decades, ownership histories, layouts, configuration histories, option pairs, large sizes
+        if with_round5:
+            yield from self._round5_cases(rng, alpha, quick)
+
+    # ------------------------------------------------------------------ rounds 5/6: R5-A … R5-F streams
+    DECADES = (-45, -30, -20, -10, 10, 20, 30, 45)
+    DECADES_EXTREME = (-480, -300, 300, 480)   # squares of values up to 8 * 2^480 stay below 1e300
+
+    @staticmethod
+    def _scale_vals(vals, k):
+        f = Fraction(2) ** k
+        if vals and isinstance(vals[0], list):
+            return [[q(Fraction(a) * f), q(Fraction(c) * f)] for a, c in vals]
+        return [q(Fraction(v) * f) for v in vals]
+
+    def _scale_world(self, b, k, fields):
+        """the named ingredients of a build multiplied by 2^k (powers of two keep dyadic values exact)."""
+        if b.get("graph") == "twoworld":
+            for wld in b["worlds"]:
+                self._scale_world(wld, k, fields)
+            return b
+        for f in fields:
+            if f == "mv_values":
+                mv = b.get("valued")
+                if mv and isinstance(mv.get("values"), list):
+                    mv["values"] = self._scale_vals(mv["values"], k)
+            elif f == "coeff":
+                for ms in b.get("mappers", []):
+                    ms["coeff"] = q(Fraction(ms.get("coeff", "1")) * Fraction(2) ** k)
+            elif f == "points":
+                for ms in b.get("mappers", []):
+                    if "points" in ms:
+                        ms["points"] = self._scale_vals(ms["points"], k)
+            elif isinstance(b.get(f), list) and b[f]:
+                b[f] = self._scale_vals(b[f], k)
+        return b
+
+    @staticmethod
+    def _uniform_values(b):
+        """(y, x) coordinates of a uniform grid for the build's mask, pixel scales and origin (exact)."""
+        m = mask_from_json(b["mask"])
+        h, w = m.shape
+        sy, sx = Fraction(b["scales"][0]), Fraction(b["scales"][1])
+        oy, ox = Fraction(b["origin"][0]), Fraction(b["origin"][1])
+        cells = [(y, x) for y in range(h) for x in range(w) if b["form"] == "native" or not m[y][x]]
+        return [[q(-(Fraction(y) - Fraction(h - 1, 2)) * sy + oy), q((Fraction(x) - Fraction(w - 1, 2)) * sx + ox)]
+                for (y, x) in cells]
+
+    def _near(self, rng, n, mode, e):
+        """n values that are nearly uniform / nearly zero at relative (absolute) distance 2^-e."""
+        eps = Fraction(1, 1 << e)
+        c = _pos(rng, 1, 4)
+        if mode == "uniform":
+            return [q(c * (1 + rng.randint(0, 3) * eps)) for _ in range(n)]
+        if mode == "zero":
+            return [q(rng.randint(-3, 3) * eps) for _ in range(n)]
+        raise ValueError(mode)
+
+    def _struct_hist(self, rng, alpha, b, n_ops=12):
+        return self._large_history(rng, alpha, b, n_ops)
+
+    def _decade_cases(self, rng, alpha, quick):
+        """(R5-A, R5-E) ordinary worlds with everything, or one ingredient, scaled by 2^k; nearly uniform / nearly
+        zero / nearly equal ingredients; origins far from zero; near-duplicate and same-shape worlds side by side at
+        small and large magnitudes (inside np.allclose / np.isclose defaults, far outside 1e-9 relative)."""
+        n = 21 if quick else 200
+        for i in range(n):
+            struct = ["Array2D", "Grid2D", "VectorYX2D", "Kernel2D", "Visibilities", "Grid2D", "Mask2D"][i % 7]
+            b = self._struct_case_build(rng, struct)
+            b.pop("container", None)
+            k = rng.choice(self.DECADES if i % 3 else self.DECADES_EXTREME)
+            mode = rng.choice(["world", "values", "origin_far", "near_uniform", "near_zero"])
+            if struct == "Mask2D":
+                mode = rng.choice(["world", "origin_far"])
+            if struct == "Visibilities":
+                if mode in ("near_uniform", "near_zero"):
+                    re_ = self._near(rng, len(b["values"]), mode[5:], rng.choice([20, 30, 40]))
+                    b["values"] = [[r_, q(Fraction(r_) * Fraction(rng.randint(-2, 2), 1 << 40))] for r_ in re_]
+                b["values"] = self._scale_vals(b["values"], k)
+            else:
+                uniform = struct == "Grid2D" and rng.random() < 0.6
+                if mode == "origin_far":
+                    # an origin 1e5 pixel scales away from zero (exact dyadics), values following it where uniform
+                    b["origin"] = [q(Fraction(rng.choice([1, -1]) * (1 << 17)) + Fraction(1, 2)),
+                                   q(Fraction(rng.choice([1, -1]) * 3 * (1 << 15)) - Fraction(1, 4))]
+                    if abs(k) <= 45 and rng.random() < 0.5:
+                        self._scale_world(b, k, ["scales", "origin"])
+                elif mode == "world":
+                    self._scale_world(b, k, ["scales", "origin"])
+                if struct == "Grid2D" and uniform:
+                    b["values"] = self._uniform_values(b)
+                    if mode in ("near_uniform", "near_zero") and b["values"]:
+                        # nearly uniform: one coordinate moved by 2^-30 of a pixel scale
+                        j = rng.randrange(len(b["values"]))
+                        b["values"][j][0] = q(Fraction(b["values"][j][0]) + Fraction(b["scales"][0]) / (1 << 30))
+                elif struct != "Mask2D":
+                    if mode in ("near_uniform", "near_zero") and struct in ("Array2D", "Kernel2D"):
+                        b["values"] = self._near(rng, len(b["values"]), "uniform" if struct == "Kernel2D" else mode[5:],
+                                                 rng.choice([20, 30, 40]))
+                    if mode in ("world", "values", "near_uniform", "near_zero"):
+                        self._scale_world(b, k, ["values", "grid_values"])
+            ks = root_kinds(b)
+            hist = self._struct_hist(rng, alpha, b, 10)
+            yield {"tag": f"dec_{struct}_{mode}", "kind": "history", "build": b, "history": hist}
+        # datasets / fits / inversions: data, noise-map and model image scaled together or one at a time
+        n = 8 if quick else 80
+        for i in range(n):
+            inversion = i % 2 == 0
+            m, _ = _mask_for_dataset(rng)
+            if inversion:
+                b = self._inv_build(rng, valued=rng.choice(["masked", None]))
+                b["positive_only"] = False
+            else:
+                b = dataset_build(rng, m)
+            k = rng.choice(self.DECADES) if i % 4 else rng.choice((-300, 300))
+            mode = ["world", "noise", "data", "near", "psf", "coeff"][i % 6]
+            if mode == "near":
+                h, w = b["mask"]["h"], b["mask"]["w"]
+                n_un = b["mask"]["bits"].count("0")
+                b["noise"] = self._near(rng, h * w, "uniform", rng.choice([20, 30, 40]))
+                if rng.random() < 0.5:
+                    b["data"] = self._near(rng, h * w, "zero", 40)
+                    b["model"] = self._near(rng, n_un, "zero", 40)
+                if rng.random() < 0.5:
+                    kh, kw = b["psf_shape"]
+                    b["psf"] = [q(Fraction(1) if j == (kh * kw) // 2 else Fraction(1, 1 << 30)) for j in range(kh * kw)]
+                self._scale_world(b, rng.choice((-20, 0, 20)), ["data", "noise", "model"])
+            elif mode == "world":
+                self._scale_world(b, k, ["data", "noise", "model", "mv_values"])
+                if abs(k) <= 45 and rng.random() < 0.5:
+                    self._scale_world(b, rng.choice((-10, 10, 17)), ["scales", "origin", "points"])
+            elif mode == "coeff" and inversion:
+                self._scale_world(b, rng.choice((-45, -20, 20, 45)), ["coeff"])
+            elif mode in ("noise", "data", "psf"):
+                self._scale_world(b, k, [mode] + (["model"] if mode == "data" else []))
+            hist = self._large_history(rng, alpha, b, 14 if inversion else 12)
+            yield {"tag": f"dec_{b['graph']}_{mode}", "kind": "history", "build": b, "history": hist}
+        # two worlds in one process at small / large magnitudes: near-duplicates (2^-20 … 2^-40 relative) and
+        # entirely different worlds of the same shape whose values are all tiny (np.allclose(a, b) is True)
+        n = 3 if quick else 60
+        for i in range(n):
+            c = self._two_world_case(rng, alpha, [0, 2, 5, 3, 2, 5, 0, 2][i % 8])
+            k = [-40, -40, -30, 30, -45, 20, -20, -33][i % 8]
+            fields = ["data", "noise", "model", "values", "grid_values", "mv_values"]
+            if i % 2:
+                fields += ["scales", "origin"]
+            self._scale_world(c["build"], k, fields)
+            for wld in c["build"]["worlds"]:
+                if wld.get("graph") == "inversion":
+                    wld["positive_only"] = False
+                if wld.get("container") in ("int64", "list_int"):
+                    wld["container"] = "ndarray"
+            c["tag"] = "dec_" + c["tag"][len("reuse_"):]
+            yield c
+        n = 6 if quick else 60
+        for i in range(n):
+            yield self._redraw_two_world_case(rng, alpha, i)
+
+    def _redraw_two_world_case(self, rng, alpha, i):
+        """two worlds in one process that are equal except for ONE ingredient, which is drawn afresh (entirely
+        different, not a near-duplicate), the whole placed at a small or large decade: anything that decides
+        "same as before" with an absolute tolerance (pixel scales equal within 1e-8, origin close to the last one,
+        noise-map allclose to the previous one) now confuses the two worlds."""
+        import copy as _copy
+        k = rng.choice([-45, -40, -33, -30, -30, 30])
+        if i % 3 != 2:
+            struct = ["Grid2D", "Mask2D", "Array2D", "Kernel2D", "VectorYX2D", "Visibilities"][(i // 3 * 2 + i % 3) % 6]
+            b1 = self._struct_case_build(rng, struct)
+            b1.pop("container", None)
+            if struct == "Grid2D":
+                b1["values"] = self._uniform_values(b1)
+            b2 = _copy.deepcopy(b1)
+            f = rng.choice(["scales", "origin"] if struct in ("Mask2D", "Grid2D") else ["scales", "origin", "values"])
+            if struct == "Visibilities":
+                f = "values"
+            if f == "scales":
+                b2["scales"] = [q(Fraction(x) * rng.choice([2, 3, Fraction(1, 2), Fraction(5, 4)])) for x in b1["scales"]]
+            elif f == "origin":
+                b2["origin"] = [q(Fraction(b1["origin"][0]) + rng.choice([1, -2, Fraction(1, 2)])),
+                                q(Fraction(b1["origin"][1]) - rng.choice([1, 3, Fraction(3, 4)]))]
+            else:
+                fresh_ = self._struct_case_build(rng, struct)
+                if struct == "Visibilities":
+                    b2["values"] = [[q(_dy(rng)), q(_dy(rng))] for _ in b1["values"]]
+                elif b1["values"] and isinstance(b1["values"][0], list):
+                    b2["values"] = [[q(_dy(rng)), q(_dy(rng))] for _ in b1["values"]]
+                else:
+                    b2["values"] = [q(abs(_dy(rng)) + Fraction(1, 4)) if struct == "Kernel2D" else q(_dy(rng))
+                                    for _ in b1["values"]]
+            if struct == "Grid2D" and f in ("scales", "origin"):
+                b2["values"] = self._uniform_values(b2)
+            b = {"graph": "twoworld", "worlds": [b1, b2], "share": []}
+            self._scale_world(b, k, ["scales", "origin", "values", "grid_values"])
+            ks = root_kinds(b)
+            n1 = len(root_kinds(b1))
+            tops = [n1 - 1, len(ks) - 1]
+            ops1 = self._ops_of(rng, alpha, ks, [tops[0]])
+            hist = []
+            for op in rng.sample(ops1, min(16, len(ops1))):
+                pair = [op, {**op, "obj": tops[1]}]
+                if rng.random() < 0.5:
+                    pair.reverse()
+                hist += pair
+            return {"tag": f"dec_redraw_{struct}_{f}", "kind": "history", "build": b, "history": hist + hist[:8]}
+        b1 = self._inv_build(rng, valued=None)
+        b1["positive_only"] = False
+        b2 = _copy.deepcopy(b1)
+        f = rng.choice(["scales", "origin", "noise", "data", "coeff"])
+        h, w = b1["mask"]["h"], b1["mask"]["w"]
+        if f == "scales":
+            b2["scales"] = [q(Fraction(x) * rng.choice([2, 3, Fraction(1, 2)])) for x in b1["scales"]]
+        elif f == "origin":
+            b2["origin"] = [q(Fraction(b1["origin"][0]) + 1), q(Fraction(b1["origin"][1]) - Fraction(3, 2))]
+        elif f == "noise":
+            b2["noise"] = [q(_pos(rng, 1, 4)) for _ in range(h * w)]
+        elif f == "data":
+            b2["data"] = [q(_dy(rng, -2, 8)) for _ in range(h * w)]
+        else:
+            for ms in b2["mappers"]:
+                ms["coeff"] = q(Fraction(ms.get("coeff", "1")) * rng.choice([2, 3, Fraction(1, 2)]))
+        b = {"graph": "twoworld", "worlds": [b1, b2], "share": []}
+        fields = ["data", "noise", "model", "mv_values"] + (["scales", "origin", "points"] if f in ("scales", "origin") else [])
+        if f == "coeff":
+            fields = ["coeff"]
+        self._scale_world(b, k, fields)
+        ks = root_kinds(b)
+        n1 = len(root_kinds(b1))
+        i1 = self._inv_idxs(ks[:n1], base=0)
+        hist = []
+        for op in self._sample_ops(rng, alpha, ks, i1, 14, exclude=(("Imaging", "w_tilde"),)):
+            o2 = op["obj"] + n1
+            if o2 >= len(ks) or ks[o2] != ks[op["obj"]]:
+                hist.append(op)
+                continue
+            pair = [op, {**op, "obj": o2}]
+            if rng.random() < 0.5:
+                pair.reverse()
+            hist += pair
+        return {"tag": f"dec_redraw_inversion_{f}", "kind": "history", "build": b, "history": hist + hist[:8]}
+
+    def _round_ops(self, rng, alpha, b, n_ops):
+        """operations of one round of an ownership / configuration history (indexes valid in every round)."""
+        ks = root_kinds(b)
+        if b["graph"] == "inversion":
+            ops = self._sample_ops(rng, alpha, ks, self._inv_idxs(ks), n_ops)
+        elif b["graph"] == "dataset":
+            ops = self._ops_of(rng, alpha, ks, [8, 9, 11, 5, 7])
+            ops = rng.sample(ops, min(n_ops, len(ops)))
+        else:
+            top = len(ks) - 1
+            ops = self._ops_of(rng, alpha, ks, [top])
+            ops = rng.sample(ops, min(n_ops, len(ops)))
+            kind = ks[top]
+            derivs = list(alpha.derivs(kind))
+            d = len(ks)
+            for how in rng.sample(derivs, min(2, len(derivs))):
+                ops.append({"op": "derive", "obj": top, "g": alpha.random_g(rng, kind, how)})
+                rk = alpha.derivs(kind)[how].get("result") or kind
+                keys = alpha.reads(rk)
+                ops += [{"op": "read", "obj": d, "key": k_} for k_ in rng.sample(keys, min(4, len(keys)))]
+                d += 1
+        return ops
+
+    def _ownership_cases(self, rng, alpha, quick):
+        """(R5-B) observe -> the caller scribbles (NaN / +1 / negation, in place) over every array the API returned
+        or accepted and over every buffer reachable from the objects -> the same world is built again from fresh
+        equal inputs -> observe; three rounds.  Every observation is compared with the model's value for a fresh
+        world and with what the first round reported."""
+        reps = 1 if quick else 6
+        for _ in range(reps):
+            for struct in ("Array2D", "Grid2D", "VectorYX2D", "Kernel2D", "Mask2D", "Visibilities"):
+                b = self._struct_case_build(rng, struct)
+                ops = self._round_ops(rng, alpha, b, 14)
+                ren = {"op": "renew", "obj": 0, "scribble": True}
+                yield {"tag": f"own_{struct}", "kind": "history", "build": b,
+                       "history": ops + [ren] + ops + [ren] + ops}
+        n = 2 if quick else 12
+        for i in range(n):
+            m, _ = _mask_for_dataset(rng)
+            b = dataset_build(rng, m)
+            ops = self._round_ops(rng, alpha, b, 16)
+            ren = {"op": "renew", "obj": 0, "scribble": True}
+            yield {"tag": "own_dataset", "kind": "history", "build": b, "history": ops + [ren] + ops + [ren] + ops}
+        n = 2 if quick else 24
+        for i in range(n):
+            b = self._inv_build(rng, wt=(i % 2 == 1), valued=None)
+            if i % 4 < 2:
+                npix = n_params_of(b["mappers"][0])
+                b["valued"] = {"values": [q(_dy(rng, 0, 8) + Fraction(1, 4)) for _ in range(npix)], "pixel_mask": None}
+            ops = self._round_ops(rng, alpha, b, 14)
+            ren = {"op": "renew", "obj": 0, "scribble": True}
+            ops2 = list(ops)
+            rng.shuffle(ops2)
+            yield {"tag": f"own_inversion_{'wt' if b['w_tilde'] else 'map'}", "kind": "history", "build": b,
+                   "history": ops + [ren] + ops2 + [ren] + ops}
+
+    GEN_LAYOUTS = ("fortran", "tview", "strided", "negstride", "readonly", "list", "sliced")
+    # `Visibilities` keeps the caller's array by reference: a non-unit stride would reach numpy's transcendental
+    # loops (arctan2 has a SIMD body for contiguous data and a scalar one for strided data — last-bit differences
+    # that are numpy's, not the library's), so these are not generated for it
+    STRIDE_LAYOUTS = ("strided", "negstride", "tview", "fortran")
+    # MapperValued documents ndarrays only for its values / mesh_pixel_mask
+    NDARRAY_ONLY_ROLES = ("mv_values", "mesh_pixel_mask")
+
+    def _layout_cases(self, rng, alpha, quick):
+        """(R5-C) equal-valued inputs in other memory layouts / containers: Fortran-ordered, transposed view, strided
+        slice of a bigger buffer, offset window, negatively strided, read-only, nested lists — for every array a
+        constructor takes.  The expectation is the object built from the plain C-contiguous ndarray."""
+        structs = ("Array2D", "Grid2D", "VectorYX2D", "Kernel2D", "Mask2D", "Visibilities")
+        combos = [(s, lay, role) for s in structs for lay in self.GEN_LAYOUTS
+                  for role in (("values", "mask") if s not in ("Mask2D", "Visibilities") else
+                               (("mask",) if s == "Mask2D" else ("values",)))
+                  if not (s == "Visibilities" and lay in self.STRIDE_LAYOUTS)]
+        if quick:
+            combos = rng.sample(combos, 32)
+        for struct, lay, role in combos:
+            for form in (("native", "slim") if (not quick and struct not in ("Mask2D", "Visibilities")) else (None,)):
+                b = self._struct_case_build(rng, struct)
+                if struct not in ("Mask2D", "Visibilities"):
+                    while form is not None and b["form"] != form:
+                        b = self._struct_case_build(rng, struct)
+                    if lay in ("fortran", "tview") and role == "values" and rng.random() < 0.7 and b["form"] != "native":
+                        # Fortran order only differs from C order for the 2D / 3D native forms
+                        m = mask_from_json(b["mask"]).tolist()
+                        b = struct_build(rng, struct, m, form="native")
+                b["container"] = "ndarray"
+                b["layout"] = {role: lay}
+                if struct == "VectorYX2D" and role == "values" and rng.random() < 0.5:
+                    b["layout"]["grid_values"] = rng.choice(self.GEN_LAYOUTS)
+                if rng.random() < 0.25 and role != "mask" and struct != "Visibilities":
+                    b["layout"]["mask"] = rng.choice(self.GEN_LAYOUTS)
+                ks = root_kinds(b)
+                top = len(ks) - 1
+                hist = []
+                if struct not in ("Mask2D", "Visibilities"):
+                    hist = [{"op": "read", "obj": 2, "key": "bytes"}, {"op": "read", "obj": top, "key": "native"},
+                            {"op": "read", "obj": top, "key": "slim"}, {"op": "read", "obj": 2, "key": "bytes"}]
+                hist += self._round_ops(rng, alpha, b, 10)
+                for o in pokeable(b)[:2]:
+                    hist += [{"op": "poke", "obj": o}, {"op": "read", "obj": top, "key": "array"}]
+                yield {"tag": f"lay_{struct}_{lay}", "kind": "history", "build": b, "history": hist}
+        # dataset / inversion graphs: every caller-owned array of the graph in a random layout
+        n = 6 if quick else 60
+        for i in range(n):
+            if i % 2:
+                b = self._inv_build(rng, wt=(i % 4 == 3))
+            else:
+                m, _ = _mask_for_dataset(rng)
+                b = dataset_build(rng, m)
+            roles = ["mask", "data", "noise", "psf", "model_data", "mv_values", "mesh_pixel_mask"]
+            b["layout"] = {r_: rng.choice([l_ for l_ in self.GEN_LAYOUTS
+                                           if not (l_ == "list" and r_ in self.NDARRAY_ONLY_ROLES)])
+                           for r_ in rng.sample(roles, rng.randint(2, 5))}
+            hist = self._round_ops(rng, alpha, b, 16)
+            yield {"tag": f"lay_{b['graph']}", "kind": "history", "build": b, "history": hist + hist[:6]}
+
+    def _config_cases(self, rng, alpha, quick):
+        """(R5-D) configuration histories: every configuration value the anchored code reads is flipped between
+        calls — before worlds are (re)built from fresh inputs (settings left to the configuration; explicit-argument
+        control worlds evaluated under the opposite configuration), and in the middle of a history on reused
+        objects whose settings are explicit (nothing may follow the flip)."""
+        def flips(keys):
+            return {k: rng.choice(CONFIG_VALUES[k]) for k in keys}
+
+        ren = {"op": "renew", "obj": 0}
+        # (a) inversions whose settings say "whatever the configuration says"
+        n = 2 if quick else 30
+        for i in range(n):
+            b = self._inv_build(rng, wt=(i % 3 == 2), valued=None)
+            b["settings_implicit"] = True
+            if i % 2:
+                # a mapper without regularization: no_regularization_add_to_curvature_diag_value matters
+                b["mappers"][-1]["reg"] = None
+            b.pop("positive_only", None)
+            ops = self._round_ops(rng, alpha, b, 10)
+            keys = ["positive_only", "p_initial", "diag"]
+            c1, c2 = flips(keys), flips(keys)
+            c2["positive_only"] = not c1["positive_only"]
+            if i % 2:
+                while c2["diag"] == c1["diag"]:
+                    c2["diag"] = rng.choice(CONFIG_VALUES["diag"])
+            extra = flips(["check_rec"]) if i % 2 == 0 else {}
+            hist = [{"op": "config", "obj": 0, "set": {**c1, **extra}}, ren] + ops + \
+                   [{"op": "config", "obj": 0, "set": c2}, ren] + ops + \
+                   [{"op": "config", "obj": 0, "set": c1}, ren] + ops
+            yield {"tag": "cfg_inversion_implicit", "kind": "history", "build": b, "history": hist, "control": True}
+        # (b) explicit settings on reused objects: configuration flips between the calls change nothing
+        n = 2 if quick else 20
+        for i in range(n):
+            b = self._inv_build(rng, wt=(i % 2 == 1), valued=None)
+            # explicit values, also the "set but falsy" ones: False, 0.0
+            b["positive_only"] = [False, True, False][i % 3]
+            b["p_initial"] = [False, True][i % 2] if i % 4 else None
+            b["diag"] = q([Fraction(0), Fraction(1, 2), Fraction(1)][i % 3])
+            if i % 2 == 0:
+                b["mappers"][-1]["reg"] = None
+            ops = self._round_ops(rng, alpha, b, 14)
+            # (only values the world's settings give explicitly are flipped on reused objects: a value left to the
+            # configuration legitimately follows it at call time, and cached quantities keep what they were computed with)
+            keys = ["positive_only", "diag"] + (["p_initial"] if b["p_initial"] is not None else [])
+            hist = ops[:5] + [{"op": "config", "obj": 0, "set": flips(keys)}] + ops + \
+                [{"op": "config", "obj": 0, "set": flips(keys)}] + ops[5:] + ops[:5]
+            yield {"tag": "cfg_inversion_explicit", "kind": "history", "build": b, "history": hist,
+                   "control": "pinned"}
+        # (c) structures / datasets built under both values of general.structures.native_binned_only
+        n = 4 if quick else 40
+        for i in range(n):
+            if i % 3 == 2:
+                m, _ = _mask_for_dataset(rng)
+                b = dataset_build(rng, m)
+            else:
+                b = self._struct_case_build(rng, ["Array2D", "Kernel2D", "Grid2D", "Array2D"][i % 4])
+            ops = self._round_ops(rng, alpha, b, 10)
+            v = i % 2 == 0
+            hist = [{"op": "config", "obj": 0, "set": {"native_only": v}}, ren] + ops + \
+                   [{"op": "config", "obj": 0, "set": {"native_only": not v}}, ren] + ops + \
+                   [{"op": "config", "obj": 0, "set": {"native_only": v}}, ren] + ops
+            yield {"tag": f"cfg_native_only_{b['graph']}", "kind": "history", "build": b, "history": hist}
+        # (d) a plain method reading the configuration at call time, with its explicit argument as control
+        n = 3 if quick else 24
+        for i in range(n):
+            b = self._struct_case_build(rng, "Grid2D")
+            ks = root_kinds(b)
+            top = len(ks) - 1
+            qs = [{"op": "query", "obj": top, "name": "grid_2d_radial_projected_from", "arg": a}
+                  for a in alpha.queries("Grid2D")["grid_2d_radial_projected_from"]["args"]]
+            other = rng.sample(self._ops_of(rng, alpha, ks, [top]), 4)
+            hist = []
+            for v in (True, False, True, None):
+                hist += [{"op": "config", "obj": 0, "set": {"remove_centre": v}}] + qs + other
+            yield {"tag": "cfg_remove_centre", "kind": "history", "build": b, "history": hist}
+
+    # values that are "set but falsy" or simply rare, per constructor parameter (only parameters the introspected
+    # signature really has are used; boolean parameters not listed here get the negation of their default)
+    OPTION_MENU = {
+        "Imaging": {"pad_for_convolver": [True], "check_noise_map": [False], "noise_covariance_matrix": [True],
+                    "use_normalized_psf": [None, False]},
+        "SettingsInversion": {"use_positive_only_solver": [True, False], "positive_only_uses_p_initial": [False, True],
+                              "force_edge_pixels_to_zeros": [False], "force_edge_image_pixels_to_zeros": [True],
+                              "image_pixels_source_zero": [[0], []], "use_border_relocator": [False],
+                              "no_regularization_add_to_curvature_diag_value": ["f:0", "f:1/2"],
+                              "use_w_tilde_numpy": [True], "use_source_loop": [True]},
+        "FitImaging": {"dataset_model": [["0", "0", "0"], ["1/2", "0", "0"], ["0", "1/2", "-1"]],
+                       "run_time_dict": ["dict:"]},
+        "Inversion": {"run_time_dict": ["dict:"]},
+        "MapperGrids": {"run_time_dict": ["dict:"]},
+        "Mapper": {"run_time_dict": ["dict:"]},
+        "Array2D": {"skip_mask": [True], "header": [True, False]},
+        "Kernel2D": {"header": [True]},
+        "Grid2D": {"over_sampling_non_uniform": [1, 2]},
+        "Mask2D": {"invert": [True]},
+    }
+    # (pad_for_convolver changes the frame, so the builder's mask no longer fits; use_linear_operators needs pylops)
+    OPTION_SKIP = {"use_linear_operators", "use_w_tilde", "store_native", "normalize", "pad_for_convolver"}
+
+    def _option_atoms(self):
+        """(R5-F) (class, parameter, value) for every non-default option value of the constructors the histories
+        go through, from the introspected signatures."""
+        import inspect
+        aa = load_autoarray()
+        from autoarray.inversion.inversion import factory
+        sigs = {"Imaging": aa.Imaging.__init__, "SettingsInversion": aa.SettingsInversion.__init__,
+                "FitImaging": aa.FitImaging.__init__, "Inversion": factory.inversion_from,
+                "MapperGrids": aa.MapperGrids.__init__, "Mapper": aa.MapperRectangular.__init__,
+                "Array2D": aa.Array2D.__init__, "Kernel2D": aa.Kernel2D.__init__, "Grid2D": aa.Grid2D.__init__,
+                "Mask2D": aa.Mask2D.__init__}
+        atoms = []
+        for cls, f in sigs.items():
+            try:
+                params = inspect.signature(f).parameters
+            except (TypeError, ValueError):
+                continue
+            menu = self.OPTION_MENU.get(cls, {})
+            for pn, prm in params.items():
+                if pn in self.OPTION_SKIP or pn == "self":
+                    continue
+                if pn in menu:
+                    atoms += [(cls, pn, v) for v in menu[pn]]
+                elif isinstance(prm.default, bool):
+                    atoms.append((cls, pn, not prm.default))
+        return atoms
+
+    GRAPH_OF_CLASS = {"Array2D": "structure", "Kernel2D": "structure", "Grid2D": "structure", "Mask2D": "structure",
+                      "Imaging": "dataset", "FitImaging": "dataset"}
+
+    def _option_cases(self, rng, alpha, quick):
+        """(R5-F) rarely combined options: each non-default value of one constructor option with each of another
+        (every single one at least once per run), on constructor purity + a sampled sweep, twice."""
+        atoms = self._option_atoms()
+        singles = [(a,) for a in atoms]
+        pairs = [(a, c) for i, a in enumerate(atoms) for c in atoms[i + 1:]
+                 if (a[0], a[1]) != (c[0], c[1])
+                 and not (self.GRAPH_OF_CLASS.get(a[0]) == "structure" and a[0] != c[0])
+                 and not (self.GRAPH_OF_CLASS.get(c[0]) == "structure" and a[0] != c[0])]
+        rng.shuffle(pairs)
+        rng.shuffle(singles)
+        # (quick: a sample of the single options and of the pairs; thorough: every single one and 260 pairs)
+        chosen = (singles[:5] + pairs[:3]) if quick else (singles + pairs[:260])
+        # covering cases: every applicable option takes a non-default value with probability 0.4, so that each pair of
+        # option values of one graph is met within a handful of cases (quick: 8 such cases per run)
+        by_graph = {"structure:Array2D": [a for a in atoms if a[0] == "Array2D"],
+                    "dataset": [a for a in atoms if a[0] in ("Imaging", "FitImaging")],
+                    "inversion": [a for a in atoms if self.GRAPH_OF_CLASS.get(a[0]) != "structure"]}
+        for j in range(14 if quick else 80):
+            gname = ["inversion", "inversion", "dataset", "inversion", "inversion", "inversion", "structure:Array2D"][j % 7]
+            params = {}
+            for a in by_graph[gname]:
+                params.setdefault((a[0], a[1]), []).append(a)
+            combo = tuple(rng.choice(v) for k_, v in sorted(params.items())
+                          if rng.random() < (0.5 if k_[0] in ("SettingsInversion", "Imaging", "Array2D") else 0.25))
+            if len(combo) >= 2:
+                chosen.append(combo)
+        for combo in chosen:
+            classes = {a[0] for a in combo}
+            if classes & {"Array2D", "Kernel2D", "Grid2D", "Mask2D"}:
+                struct = sorted(classes)[0]
+                b = self._struct_case_build(rng, struct)
+                b.pop("ctor", None)
+                if struct == "Mask2D":
+                    b["scales"], b["origin"] = _scales(rng), _origin(rng)
+            elif classes <= {"Imaging", "FitImaging"}:
+                m, _ = _mask_for_dataset(rng)
+                b = dataset_build(rng, m)
+            else:
+                b = self._inv_build(rng, wt=rng.random() < 0.4, valued=None)
+                if any(a[1] == "no_regularization_add_to_curvature_diag_value" for a in combo):
+                    b["mappers"][-1]["reg"] = None
+            b["opts"] = {}
+            for cls, pn, v in combo:
+                if cls == "Imaging" and pn == "use_normalized_psf":
+                    b["normalize_psf"] = v
+                elif cls == "FitImaging" and pn == "use_mask_in_fit":
+                    b["use_mask_in_fit"] = v
+                else:
+                    b["opts"].setdefault(cls, {})[pn] = v
+            ops = self._round_ops(rng, alpha, b, 12)
+            if b["graph"] == "inversion":
+                # every core quantity of the inversion, twice, in two orders (what every other quantity is computed from)
+                ks = root_kinds(b)
+                inv = ks.index("Inversion")
+                core = [{"op": "read", "obj": inv, "key": k_} for k_ in self.INV_CORE]
+                rng.shuffle(core)
+                ops = core + [o_ for o_ in ops if o_ not in core][:4]
+                hist = ops + list(reversed(ops))
+            else:
+                hist = ops + ops[: len(ops) // 2]
+            pk = pokeable(b)
+            if pk:
+                hist += [{"op": "poke", "obj": rng.choice(pk)}] + [o_ for o_ in ops if o_["op"] != "derive"][:6]
+            name = "+".join(f"{c}.{p}" for c, p, _ in combo)
+            yield {"tag": f"opt_{min(len(combo), 3)}{'+' if len(combo) > 2 else ''}_{b['graph']}", "kind": "history",
+                   "build": b, "history": hist, "options": name}
+
+    def _always_large_cases(self, rng, alpha, quick):
+        """(R5-E) always-on mid / large sizes, beyond 2^16 elements where a Python-speed run stays within budget."""
+        t = (1 << 16) + rng.choice([1, 3, 257, 1025])
+        fams = ["Array2D", "Grid2D", "Visibilities", "Mask2D"] + ([] if quick else ["VectorYX2D"])
+        # (quick: Visibilities — cheap, and its cached quantities change under every arithmetic derivation — plus one
+        # other family)
+        picks = (["Visibilities"] + rng.sample(["Array2D", "Mask2D"], 1)) if quick else fams
+        for fam in picks:
+            if fam == "Visibilities":
+                b = {"graph": "visibilities", "proc": {"seed": rng.randint(0, 10 ** 6), "n": t}}
+            elif fam == "Mask2D":
+                b = self._proc_struct(rng, "Mask2D", frame=(251, 263 + rng.randint(0, 6)))
+            else:
+                b = self._proc_struct(rng, fam, n_un=t)
+                if fam in ("Array2D",) and rng.random() < 0.5:
+                    b["container"] = "float32"
+            yield {"tag": f"big_{fam}", "kind": "history", "build": b,
+                   "history": self._large_history(rng, alpha, b, 6 if quick else 10, skip_slow=True,
+                                                  n_derivs=1 if quick else 3)}
+        if not quick:
+            # a dataset / an inversion beyond 2^15 unmasked pixels (mapping formalism), a PSF of 225 pixels
+            yield {"tag": "big_dataset", "kind": "history",
+                   "build": (bd := self._proc_dataset(rng, (1 << 15) + 5, psf_shape=(3, 3))),
+                   "history": self._large_history(rng, alpha, bd, 6)}
+            yield {"tag": "big_inversion", "kind": "history",
+                   "build": (bi := self._proc_dataset(rng, (1 << 15) + 3, inversion=True, psf_shape=(1, 3))),
+                   "history": self._large_history(rng, alpha, bi, 6)}
+
+    def _round5_cases(self, rng, alpha, quick):
+        if quick:
+            # (the sweeps carry the ownership rounds of the quick tier)
+            yield from self._decade_cases(rng, alpha, quick)
+            yield from self._layout_cases(rng, alpha, quick)
+            yield from self._config_cases(rng, alpha, quick)
+            yield from self._option_cases(rng, alpha, quick)
+            yield from self._always_large_cases(rng, alpha, quick)
+            return
+        gens = [self._decade_cases(rng, alpha, quick), self._ownership_cases(rng, alpha, quick),
+                self._layout_cases(rng, alpha, quick), self._config_cases(rng, alpha, quick),
+                self._option_cases(rng, alpha, quick)]
+        while gens:
+            for gi in range(len(gens) - 1, -1, -1):
+                for _ in range(3):
+                    try:
+                        yield next(gens[gi])
+                    except StopIteration:
+                        del gens[gi]
+                        break
+        yield from self._always_large_cases(rng, alpha, quick)   # (the slow ones last)
 
     # ------------------------------------------------------------------ round 4: reuse histories (L2)
     INV_CORE = ("curvature_matrix", "operated_mapping_matrix", "data_vector", "reconstruction",
@@ -2646,9 +3882,15 @@ class C11(PropertyCheck):
 
     SOLVE_WORDS = ("reconstruct", "log_det", "regularization_term", "data_subtracted", "noise_map", "errors")
 
-    def _large_history(self, rng, alpha, b, n_ops=14):
+    SLOW_DERIVS = ("apply_mask", "zoomed", "padded", "trimmed", "resized", "padded_grid_from", "derive_mask",
+                   "rescaled", "mask_resized")
+    SLOW_WORDS = ("derive_", "zoom")   # pure-Python border / edge / zoom loops: seconds at 2^16 pixels (C10's subject)
+
+    def _large_history(self, rng, alpha, b, n_ops=14, skip_slow=False, n_derivs=3):
         ks = root_kinds(b)
         excl = set()
+        if skip_slow:
+            excl |= {(k_, key) for k_ in set(ks) for key in alpha.reads(k_) if any(w in key for w in self.SLOW_WORDS)}
         n_un = b["proc"].get("n_un", 0) if "proc" in b else 0
         if n_un > 600:
             excl.add(("Imaging", "w_tilde"))  # O(N^2) in pure Python
@@ -2678,15 +3920,16 @@ class C11(PropertyCheck):
         if b["graph"] in ("structure", "visibilities"):
             kind = ks[-1]
             top = len(ks) - 1
-            derivs = [h for h in alpha.derivs(kind)]
+            derivs = [h for h in alpha.derivs(kind) if not (skip_slow and h in self.SLOW_DERIVS)]
             d = len(ks)
-            for how in rng.sample(derivs, min(3, len(derivs))):
-                ck = alpha.cached_reads(kind)
-                pre = rng.sample(alpha.reads(kind), 3) + ([rng.choice(ck)] if ck else [])
+            for how in rng.sample(derivs, min(n_derivs, len(derivs))):
+                ck = [k_ for k_ in alpha.cached_reads(kind) if (kind, k_) not in excl]
+                pool_ = [k_ for k_ in alpha.reads(kind) if (kind, k_) not in excl]
+                pre = rng.sample(pool_, 3) + ([rng.choice(ck)] if ck else [])
                 hist += [{"op": "read", "obj": top, "key": k} for k in pre]
                 hist.append({"op": "derive", "obj": top, "g": alpha.random_g(rng, kind, how)})
                 rk = alpha.derivs(kind)[how].get("result") or kind
-                keys = alpha.reads(rk)
+                keys = [k_ for k_ in alpha.reads(rk) if not (skip_slow and any(w in k_ for w in self.SLOW_WORDS))]
                 # the keys read on the source before the derivation, on the derived object; and the source again
                 hist += [{"op": "read", "obj": d, "key": k} for k in pre if k in keys]
                 hist += [{"op": "read", "obj": d, "key": k} for k in rng.sample(keys, min(3, len(keys)))]
@@ -2867,6 +4110,16 @@ class C11(PropertyCheck):
                         yield {"tag": f"pattern_{kind}", "kind": "history", "build": b, "history": hist}
 
     def _sweep_cases(self, rng, alpha, reps):
+        ren = {"op": "renew", "obj": 0, "scribble": True}
+
+        def owned(ops):
+            """(R5-B) ownership rounds behind the two passes over one world: the caller scribbles over every array it
+            was handed or handed over, builds the same world again from fresh equal inputs and sweeps again (other
+            order); and once more (the third request of a process-wide memo)."""
+            o2 = list(ops)
+            rng.shuffle(o2)
+            return ops + ops + [ren] + o2 + [ren] + ops[: (len(ops) + 1) // 2]
+
         def all_ops(ks, idxs):
             ops = []
             for o in idxs:
@@ -2877,19 +4130,19 @@ class C11(PropertyCheck):
                     ops.append({"op": "query", "obj": o, "name": name, "arg": rng.choice(args) if args else ""})
             return ops
 
-        for _ in range(reps):
+        for rep_i in range(reps):
             for struct in ("Array2D", "Grid2D", "VectorYX2D", "Kernel2D", "Mask2D", "Visibilities"):
                 b = self._struct_case_build(rng, struct)
                 ks = root_kinds(b)
                 ops = all_ops(ks, [len(ks) - 1])
                 rng.shuffle(ops)
-                yield {"tag": f"sweep_{struct}", "kind": "history", "build": b, "history": ops + ops}
+                yield {"tag": f"sweep_{struct}", "kind": "history", "build": b, "history": owned(ops)}
             m, _ = _mask_for_dataset(rng)
             b = dataset_build(rng, m)
             ks = root_kinds(b)
             ops = all_ops(ks, [8, 9, 11])
             rng.shuffle(ops)
-            yield {"tag": "sweep_dataset", "kind": "history", "build": b, "history": ops + ops}
+            yield {"tag": "sweep_dataset", "kind": "history", "build": b, "history": owned(ops)}
             for wt in (False, True):
                 for nm in (1, 2):
                     m, _ = _mask_for_dataset(rng)
@@ -2908,7 +4161,7 @@ class C11(PropertyCheck):
                     ops = all_ops(ks, idxs)
                     rng.shuffle(ops)
                     yield {"tag": f"sweep_inversion_{'wt' if wt else 'map'}_{nm}", "kind": "history", "build": b,
-                           "history": ops + ops}
+                           "history": owned(ops) if rep_i % 2 == 0 else ops + ops}
 
     def _rng_case(self, rng, maxsteps):
         # >= 6 pixels and >= 300 expected counts per unit flux: two different seeds giving the same Poisson
@@ -3014,77 +4267,98 @@ class C11(PropertyCheck):
         meta = impl_obs.get("_meta") if isinstance(impl_obs, dict) else None
         if not meta:
             raise Skip("implementation did not build the graph")
-        hist = []
-        kinds = list(meta["kinds"])
+        prefix = []
         stage_at = []
         for i, (k, ps) in enumerate(zip(meta["kinds"], meta["parents"])):
             if k == "MapperValuedMaskedRec" or (k == "MapperValued" and len(ps) == 2 and meta["kinds"][ps[1]] == "Inversion"):
                 # the builder hands the valued mapper `inversion.reconstruction`: a read, which caches it
-                hist.append({"op": "read", "obj": ps[1], "key": "Inversion.reconstruction"})
-            stage_at.append(len(hist))
-            hist.append({"op": "construct", "kind": k, "root": i, "parents": ps})
-        n_prefix = len(hist)
-        step_at = []
+                prefix.append({"op": "read", "obj": ps[1], "key": "Inversion.reconstruction"})
+            stage_at.append(len(prefix))
+            prefix.append({"op": "construct", "kind": k, "root": i, "parents": ps})
+        n_prefix = len(prefix)
         impl_steps = impl_obs.get("steps", [])
+        # (R5-B) a `renew` step drops the world and builds it again from fresh equal inputs: one machine run per
+        # round, each starting from the constructions; `config` steps are invisible to the machine
+        rounds, cur = [], []
         for i_st, st in enumerate(case["history"]):
-            o = st["obj"]
-            kind = kinds[o] if o < len(kinds) else "?"
-            step_at.append(len(hist))
-            if st["op"] == "poke":
-                hist.append({"op": "read", "obj": o, "key": "Buffer.__caller_write__"})
-            elif st["op"] == "setitem":
-                applied = i_st < len(impl_steps) and impl_steps[i_st].get("applied")
-                hist.append({"op": "read", "obj": o, "key": f"{kind}.__setitem__" if applied else f"{kind}.__noop__"})
-                for j in (impl_steps[i_st].get("aliased", []) if applied else []):
-                    # numpy aliasing (views, by-reference constructors): the same user write, seen through object j
-                    kj = kinds[j] if j < len(kinds) else "?"
-                    hist.append({"op": "read", "obj": j, "key": "Buffer.__caller_write__" if kj == "Buffer"
-                                 else f"{kj}.__setitem__"})
-            elif st["op"] == "fault":
-                # an interrupted read / query: reports nothing, must change nothing
-                hist.append({"op": "read", "obj": o, "key": f"{kind}.__interrupted__"})
-            elif st["op"] == "read":
-                hist.append({"op": "read", "obj": o, "key": f"{kind}.{st['key']}"})
-            elif st["op"] == "query":
-                hist.append({"op": "read", "obj": o, "key": f"{kind}.{st['name']}"})
-            else:
-                hist.append({"op": "derive", "obj": o, "cls": deriv_class(kind, st["g"]), "g": st["g"]})
-                kinds.append(result_kind(kind, st["g"]) if kind in effects()["kinds"] else "?")
-        return [{"op": "c11.cache_machine", "effects": self._table_for(kinds), "history": hist,
-                 "tag": {"n_prefix": n_prefix, "stage_at": stage_at, "step_at": step_at}}]
+            if st["op"] == "renew":
+                rounds.append(cur)
+                cur = []
+            elif st["op"] != "config":
+                cur.append((i_st, st))
+        rounds.append(cur)
+        table = None
+        reqs = []
+        for r_i, steps in enumerate(rounds):
+            hist = list(prefix)
+            kinds = list(meta["kinds"])
+            step_at = {}
+            for i_st, st in steps:
+                o = st["obj"]
+                kind = kinds[o] if o < len(kinds) else "?"
+                step_at[str(i_st)] = len(hist)
+                if st["op"] == "poke":
+                    hist.append({"op": "read", "obj": o, "key": "Buffer.__caller_write__"})
+                elif st["op"] == "setitem":
+                    applied = i_st < len(impl_steps) and impl_steps[i_st].get("applied")
+                    hist.append({"op": "read", "obj": o, "key": f"{kind}.__setitem__" if applied else f"{kind}.__noop__"})
+                    for j in (impl_steps[i_st].get("aliased", []) if applied else []):
+                        # numpy aliasing (views, by-reference constructors): the same user write, seen through object j
+                        kj = kinds[j] if j < len(kinds) else "?"
+                        hist.append({"op": "read", "obj": j, "key": "Buffer.__caller_write__" if kj == "Buffer"
+                                     else f"{kj}.__setitem__"})
+                elif st["op"] == "fault":
+                    # an interrupted read / query: reports nothing, must change nothing
+                    hist.append({"op": "read", "obj": o, "key": f"{kind}.__interrupted__"})
+                elif st["op"] == "read":
+                    hist.append({"op": "read", "obj": o, "key": f"{kind}.{st['key']}"})
+                elif st["op"] == "query":
+                    hist.append({"op": "read", "obj": o, "key": f"{kind}.{st['name']}"})
+                else:
+                    hist.append({"op": "derive", "obj": o, "cls": deriv_class(kind, st["g"]), "g": st["g"]})
+                    kinds.append(result_kind(kind, st["g"]) if kind in effects()["kinds"] else "?")
+            if table is None:
+                table = self._table_for(kinds)
+            reqs.append({"op": "c11.cache_machine", "effects": table, "history": hist,
+                         "tag": {"n_prefix": n_prefix, "stage_at": stage_at, "step_at": step_at, "round": r_i}})
+        return reqs
 
     def model_obs(self, case, responses):
-        r = responses[0]
-        if "err" in r:
-            return {"err": r["err"]}
+        for r in responses:
+            if "err" in r:
+                return {"err": r["err"]}
         if case["kind"] == "rng":
-            return {"labels": _labels(r["ok"]["outputs"]), "changed": []}
-        steps = r["ok"]["steps"]
-        n_roots = r["ok"]["tag"]["n_prefix"]
-        ctor = [{"stage": i, "changed": steps[j]["changed"], "vchanged": steps[j]["vchanged"]}
-                for i, j in enumerate(r["ok"]["tag"]["stage_at"]) if steps[j]["changed"] or steps[j]["vchanged"]]
+            return {"labels": _labels(responses[0]["ok"]["outputs"]), "changed": []}
         fresh = FreshEval(case["build"])
-        out = []
-        step_at = r["ok"]["tag"].get("step_at") or list(range(n_roots, n_roots + len(case["history"])))
-        for st, j in zip(case["history"], step_at):
-            s = steps[j]
-            o = {"may_change": sorted({f"obj{i}" for i in s["changed"]} | {f"obj{i}" for i, k in s["vchanged"]})}
-            v = s["value"]
-            if st["op"] in ("derive", "poke", "setitem", "fault"):
-                o["value"] = None
-            elif v is None:
-                o["value"] = "err:no-object"
-            else:
-                o["value"] = self._interpret(fresh, v, st)
-            out.append(o)
+        cfgs = cfg_timeline(case["history"])
+        out = [{"may_change": [], "value": None} for _ in case["history"]]
+        ctor = []
+        for r in responses:
+            steps = r["ok"]["steps"]
+            tag = r["ok"]["tag"]
+            ctor += [{"stage": i, "changed": steps[j]["changed"], "vchanged": steps[j]["vchanged"]}
+                     for i, j in enumerate(tag["stage_at"]) if steps[j]["changed"] or steps[j]["vchanged"]]
+            for i_s, j in tag["step_at"].items():
+                i_st = int(i_s)
+                st = case["history"][i_st]
+                s = steps[j]
+                o = {"may_change": sorted({f"obj{i}" for i in s["changed"]} | {f"obj{i}" for i, k in s["vchanged"]})}
+                v = s["value"]
+                if st["op"] in ("derive", "poke", "setitem", "fault"):
+                    o["value"] = None
+                elif v is None:
+                    o["value"] = "err:no-object"
+                else:
+                    o["value"] = self._interpret(fresh, v, st, cfgs[i_st])
+                out[i_st] = o
         return {"ctor": ctor, "steps": out}
 
-    def _interpret(self, fresh, v, st):
+    def _interpret(self, fresh, v, st, cfg=None):
         """symbolic value -> fingerprint of the same quantity read once on a freshly built equal object."""
         if v["dirty"]:
             # computed from something an earlier operation edited in place: not a fresh-object value
             return {"edited": True}
-        return fresh.value(v["at"]["root"], v["at"]["path"], st)
+        return fresh.value(v["at"]["root"], v["at"]["path"], st, cfg)
 
     def compare(self, case, impl_obs, model_obs, cmp):
         if "err" in model_obs:
@@ -3140,6 +4414,17 @@ class C11(PropertyCheck):
                 if "rebuilt" in s and s["rebuilt"] != s["value"]:
                     return False, (f"step {i}: {what} on derived obj {st['obj']} = {s['value']} but a new object "
                                    f"constructed from its own contents reports {s['rebuilt']}")
+                if "first" in s and s["first"] != s["value"]:
+                    return False, (f"step {i}: {st['op']} {what} on obj {st['obj']} reports {s['value']} but the same "
+                                   f"quantity of an equal object under the same configuration reported {s['first']} "
+                                   f"earlier in this process")
+                if "twin" in s and s["twin"] != s["value"]:
+                    return False, (f"step {i}: {what} on obj {st['obj']} (a structure built from a structure) = "
+                                   f"{s['value']} but the same constructor call on the plain ndarray gives {s['twin']}")
+                if "control" in s and s["control"] != s["value"]:
+                    return False, (f"step {i}: {st['op']} {what} on obj {st['obj']} reports {s['value']} with the value "
+                                   f"left to the configuration, but {s['control']} with the value in force passed as "
+                                   f"an explicit argument")
         return True, ""
 
     # ------------------------------------------------------------------ known findings
